@@ -121,6 +121,8 @@ def hstack(items):
     items = list(items)
     if items and all(isinstance(it, SymNDArray) and it.ndim >= 2 for it in items):
         return concat_axis(items, 1)
+    if any(isinstance(it, SymNDArray) and it.ndim >= 2 for it in items):
+        raise ValueError('all the input arrays must have same number of dimensions')
     blocks = []
     for it in items:
         if isinstance(it, SymNDArray):
@@ -154,10 +156,10 @@ def tile(a, reps):
         shape = []
         mode = []
         for r, s in zip(reps, ashape):
-            if is_lit(r, 1):
+            if A.is_unit(r):
                 shape.append(s)
                 mode.append('keep')
-            elif is_lit(s, 1):
+            elif A.is_unit(s):
                 shape.append(r)
                 mode.append('bcast')
             else:
